@@ -24,6 +24,16 @@ SCRIPTS = {
     "rejected": 'from Reduino.Utils import sleep\nfor i in range(1, 5):\n    sleep(1)\n',
 }
 
+# libraries the devices declared in each script need (independent of the code under test), plus more orders of the same devices
+NEEDS = {"plain": [], "servo": ["Servo"], "lcd_par": ["LiquidCrystal"], "lcd_i2c": ["LiquidCrystal_I2C"], "unicode": [],
+         "all_libs": ["LiquidCrystal", "LiquidCrystal_I2C", "Servo"], "lcds_then_servo": ["LiquidCrystal", "LiquidCrystal_I2C", "Servo"],
+         "i2c_servo_par": ["LiquidCrystal", "LiquidCrystal_I2C", "Servo"]}
+SCRIPTS["lcds_then_servo"] = ('from Reduino.Actuators import Servo, Led\nfrom Reduino.Displays import LCD\nled = Led(13)\nb = LCD(i2c_addr=0x27)\n'
+                              'a = LCD(rs=12, en=11, d4=5, d5=4, d6=3, d7=2)\ns = Servo(9)\ns.write(10)\n')
+SCRIPTS["i2c_servo_par"] = ('from Reduino.Actuators import Servo\nfrom Reduino.Displays import LCD\nb = LCD(i2c_addr=0x3F)\nwhile True:\n    s = Servo(9)\n'
+                            '    s.write(10)\n')
+NEEDS["i2c_servo_par"] = ["LiquidCrystal_I2C", "Servo"]
+
 PAIRS = {
     "valid_uno": ("atmelavr", "uno", True), "valid_every": ("atmelmegaavr", "nano_every", True), "valid_hyphen": ("atmelavr", "a-star32U4", True),
     "bad_platform": ("espressif32", "uno", False), "bad_board": ("atmelavr", "not_a_board", False),
@@ -142,6 +152,9 @@ def spec_check(cfg: dict, out: dict) -> list[tuple[str, str]]:
             got_libs = [x.strip() for x in sec.get("lib_deps", "").splitlines() if x.strip()]
             if got_libs != out.get("expected_libs"):
                 v.append(("ini-libs", f"lib_deps={got_libs}, script needs {out.get('expected_libs')}"))
+            need = NEEDS.get(cfg["script_name"])
+            if need is not None and (sorted(got_libs) != sorted(need) or len(got_libs) != len(set(got_libs))):
+                v.append(("ini-libs-vs-devices", f"lib_deps={got_libs}, the declared devices need {need}"))
     # build / upload protocol
     real_runs = [r for r in runs if r[1] != ["pio", "--version"]]
     if not upload:
@@ -199,7 +212,7 @@ def main() -> int:
     if t == "quick":
         # single-fault and fault-free rows for every (pair, script, upload) + a random sample of multi-fault rows
         sel = [c for c in full if sum(1 for k, v in c[3].items() if v != "ok") <= 1 and
-               (c[1] in ("plain", "all_libs", "rejected", "unicode") or c[3] == dict.fromkeys(keys, "ok"))]
+               (c[1] in ("plain", "all_libs", "rejected", "unicode", "lcds_then_servo", "i2c_servo_par") or c[3] == dict.fromkeys(keys, "ok"))]
         sel = [c for c in sel if PAIRS[c[0]][2] or c[3] == dict.fromkeys(keys, "ok") or c[3]["pio"] != "ok"]
         rest = [c for c in full if c not in sel]
         rng.shuffle(rest)
@@ -250,6 +263,31 @@ def main() -> int:
         if sec.get("ret") != sec.get("expected_cpp") or sec.get("libs_written") != sec.get("expected_libs"):
             rep.violation(f"history {cfg['script_name']}: the second target() call on the same path (file rewritten) did not transpile the new text "
                           f"(libs written {sec.get('libs_written')}, needed {sec.get('expected_libs')})", {"script.py": cfg["script"], "second.py": cfg["second"]}, key="history-stale")
+    # ---- histories: the very same target() call twice in one process, under the same fault: same outcome, same kind of effects
+    rcases = []
+    for sname, upload, faults in (("plain", True, {"pio": "missing"}), ("servo", True, {"pio": "fail"}), ("plain", True, {}), ("all_libs", False, {}),
+                                  ("plain", True, {"build": "fail"}), ("lcd_i2c", None, {"pio": "missing"}), ("plain", True, {"mkdtemp": "oserror"})):
+        rcases.append({"script": make_script(SCRIPTS[sname], "COM3", upload, "atmelavr", "uno", 0), "faults": faults, "platform": "atmelavr", "board": "uno",
+                       "port": "COM3", "valid_pair": True, "upload_effective": True if upload is None else upload, "script_name": f"{sname} twice",
+                       "pair": "valid_uno", "upload_arg": upload, "repeat": True})
+    for cfg, st, out in run_cases(run_child, rcases):
+        if st != "ok" or "harness_error" in out:
+            rep.inconclusive_because(f"repeat child failed: {(out if st != 'ok' else out['harness_error'])[-200:]}")
+            continue
+        r = out.get("repeat") or {}
+        rep.case("repeat:" + cfg["script_name"] + json.dumps(cfg["faults"]), True)
+        rep.count("repeat_cases")
+
+        def kinds(effs):
+            # temp directory names differ from call to call: compare the kind and, for commands, the argv
+            # (the `pio --version` availability probe is left out: remembering a SUCCESSFUL probe would be legitimate)
+            return [[e[0], e[1] if e[0] == "run" else None] for e in effs if not (e[0] == "run" and e[1] == ["pio", "--version"])]
+
+        if (r.get("outcome"), r.get("exc_type")) != (r.get("first_outcome"), r.get("first_exc_type")) or kinds(r.get("effects", [])) != kinds(r.get("first_effects", [])) \
+                or (r.get("outcome") == "returned" and not r.get("same_return")):
+            rep.violation(f"{cfg['script_name']} with faults {cfg['faults']}: the second identical target() call behaved differently: first "
+                          f"{r.get('first_outcome')}/{r.get('first_exc_type')} effects {kinds(r.get('first_effects', []))[:6]}, second {r.get('outcome')}/{r.get('exc_type')} "
+                          f"effects {kinds(r.get('effects', []))[:6]}", {"script.py": cfg["script"]}, key="repeat-differs")
     rep.rule = ("product of (platform,board) pairs {valid, unknown platform, unknown board, mismatched} x scripts {no lib, "
                 "servo, parallel LCD, I2C LCD, all, non-ASCII, rejected-by-transpiler} x upload {True, False, default} x "
                 "fault points {pio discovery: ok/missing/non-zero, mkdtemp, write main.cpp, write platformio.ini, build, "
